@@ -35,7 +35,7 @@ ASSUMPTIONS = ["two JSON documents are the same when they parse to equal values 
                "parameter-built documents keep balance points inside [T_min_seg, T_max_seg] (documents outside that box are the C11 finding)",
                "warnings/disqualifications are compared by their json() form"]
 REQUIRED_REACH = {"roundtrip.predict_compared": 40, "roundtrip.rejson_compared": 12, "roundtrip.metadata_compared": 5, "formula.rows_compared": 12000,
-                  "formula.models": 40, "second_generation": 6, "model_object_reused": 3, "family.daily": 2, "family.billing": 1, "family.hourly": 2, "family.caltrack": 1, "baseline.calendar_month_without_meter_data": 3}
+                  "formula.models": 40, "second_generation": 6, "model_object_reused": 3, "family.daily": 2, "family.billing": 1, "family.hourly": 14, "family.caltrack": 1, "baseline.calendar_month_without_meter_data": 3}
 
 VIOL = []
 CUR = {}
@@ -283,6 +283,9 @@ def gen_cases(tier, seed):
         k += 1
     for i, f in enumerate(["daily:current", "billing", "hourly:default", "daily:legacy"] if q else ["daily:current", "billing", "hourly:default", "daily:legacy", "hourly:default:ghi", "caltrack", "daily:custom-maps", "daily:dev-nofinal"]):
         cases.append(dict(kind="fitted", family=f, tz=zones[i % len(zones)], variant=None, reused_model_object=True, n=k, timeout=3000))
+        k += 1
+    for i, pr in enumerate(FT.HOURLY_ALTERNATIVES):
+        cases.append(dict(kind="fitted", family="hourly:" + pr + (":ghi" if (i % 4 == 3 and not q) else ""), tz=zones[(i + 2) % len(zones)], variant=None, n=k, timeout=3000))
         k += 1
     for i, f in enumerate(["caltrack", "hourly:default", "daily:current"] if q else ["caltrack", "hourly:default", "daily:current", "caltrack", "hourly:default:ghi", "daily:legacy", "caltrack", "hourly:robust"]):
         cases.append(dict(kind="fitted", family=f, tz=zones[(i + 1) % len(zones)], variant="month-without-meter-data", n=k, timeout=3000))
